@@ -373,6 +373,219 @@ pub fn c08(tier: &str, seed: u64) -> i32 {
     if ctx.run.violations.is_empty() {
         seeded_runs(&mut ctx, "C08", o, clauses, false);
     }
+    if ctx.run.violations.is_empty() {
+        sparse_offsets_pass(&mut ctx, if thorough { 5 } else { 4 });
+    }
     let rule = "explicit-state search over on-disk images (see C01) on key sets that all collide in one bucket, key lengths chosen so that the key record sits exactly on / one byte below a slot-class edge, from the empty map and from seeded images (built by the real code) whose .val/.key end lies at an offset-width boundary minus {0,16,48} with freed slots below; oracle: every call result and every get/len on every state equal the model (affected key and all others), the independent decoder accepts every state and recovers the model; non-trivial = transitions that really moved a key record (counters key_record_moved_* by chain position) or a value record across an offset width";
     ctx.finish_model_checking(rule, &["key_record_moved", "value_record_moved"])
+}
+
+
+// ---------------------------------------------------------------------------------------------
+// offsets beyond what an image search can materialise: the files of a small map are extended with a hole
+// (set_len: no bytes are written) to just below a boundary at which an offset needs one more byte, and every
+// short history over three colliding keys is run there on a live handle and after a re-open
+
+pub const JOB_C08_SPARSE: u8 = 72;
+
+/// boundaries: raw-offset width steps 256 MiB and 32 GiB, written-offset (offset/8) width step 2 GiB
+pub const SPARSE_BOUNDARIES: [u64; 3] = [1 << 28, 1 << 31, 1 << 35];
+
+fn sparse_one(dir: &std::path::Path, which: u8, boundary: u64, eps: u64, seq: &[u8], seed: u64) -> Result<(), String> {
+    use abyssiniandb::{DbXxx, DbXxxBase};
+    use std::collections::BTreeMap;
+    clear_dir(dir);
+    let p = Params::buckets(1);
+    // keys of 11, 10 and 18 bytes (records that fill their slots exactly at some offset widths), values of 3 and 200 bytes
+    let keys: Vec<Vec<u8>> = vec![b"sparse-k-11".to_vec(), b"sparse-k10".to_vec(), b"sparse-key-of-18-by".to_vec()[..18].to_vec()];
+    let vals: Vec<Vec<u8>> = vec![value_bytes(seed, 1, 0, 3), value_bytes(seed, 2, 1, 200)];
+    let filler_k = b"filler-entry".to_vec();
+    let filler_v = value_bytes(seed, 9, 9, 40);
+    let mut model: BTreeMap<Vec<u8>, Vec<u8>> = BTreeMap::new();
+    {
+        let (db, mut m) = match open_map::<abyssiniandb::DbBytes>(dir, MAP_NAME, &p) {
+            Out::Ok(x) => x,
+            o => return Err(format!("open {}", o.failed().unwrap_or_default())),
+        };
+        if guard(|| m.put(&filler_k[..], &filler_v)) != Out::Ok(()) {
+            return Err("put of the filler entry fails".into());
+        }
+        model.insert(filler_k.clone(), filler_v.clone());
+        let _ = guard_plain(move || {
+            drop(m);
+            drop(db);
+        });
+    }
+    // the holes
+    for (bit, ext) in [(1u8, "val"), (2u8, "key")] {
+        if which & bit != 0 {
+            let path = dir.join(format!("{MAP_NAME}.{ext}"));
+            let f = std::fs::OpenOptions::new().write(true).open(&path).map_err(|e| format!("machinery: {e}"))?;
+            f.set_len(boundary - eps).map_err(|e| format!("machinery: set_len: {e}"))?;
+        }
+    }
+    let check = |m: &mut abyssiniandb::filedb::FileDbMap<abyssiniandb::DbBytes>, model: &BTreeMap<Vec<u8>, Vec<u8>>, when: &str| -> Result<(), String> {
+        for k in keys.iter().chain(std::iter::once(&filler_k)) {
+            let exp = model.get(k).cloned();
+            let r = guard(|| m.get(&k[..]));
+            if r != Out::Ok(exp.clone()) {
+                return Err(format!("{when}: get({}) gives {} but the model says {}", crate::util::show(k), match &r { Out::Ok(g) => g.as_ref().map(|v| crate::util::show(v)).unwrap_or("None".into()), o => o.failed().unwrap_or_default() }, exp.as_ref().map(|v| crate::util::show(v)).unwrap_or("None".into())));
+            }
+        }
+        if guard(|| m.len()) != Out::Ok(model.len() as u64) {
+            return Err(format!("{when}: len() differs from the model's {}", model.len()));
+        }
+        Ok(())
+    };
+    let (db, mut m) = match open_map::<abyssiniandb::DbBytes>(dir, MAP_NAME, &p) {
+        Out::Ok(x) => x,
+        o => return Err(format!("re-open after the extension {}", o.failed().unwrap_or_default())),
+    };
+    for (pos, l) in seq.iter().enumerate() {
+        let (ki, op) = ((l / 3) as usize % 3, l % 3);
+        let k = &keys[ki];
+        let what;
+        if op < 2 {
+            let v = &vals[op as usize];
+            what = format!("call {}: put(k{ki}, {} bytes)", pos + 1, v.len());
+            let r = guard(|| m.put(&k[..], v));
+            if r != Out::Ok(()) {
+                return Err(format!("{what} {}", r.failed().unwrap_or_default()));
+            }
+            model.insert(k.clone(), v.clone());
+        } else {
+            what = format!("call {}: delete(k{ki})", pos + 1);
+            let exp = model.remove(k);
+            let r = guard(|| m.delete(&k[..]));
+            if r != Out::Ok(exp) {
+                return Err(format!("{what} returns a wrong value or fails: {:?}", r.failed()));
+            }
+        }
+        check(&mut m, &model, &format!("after {what}"))?;
+    }
+    let _ = guard_plain(move || {
+        drop(m);
+        drop(db);
+    });
+    let (db, mut m) = match open_map::<abyssiniandb::DbBytes>(dir, MAP_NAME, &p) {
+        Out::Ok(x) => x,
+        o => return Err(format!("re-open after the history {}", o.failed().unwrap_or_default())),
+    };
+    check(&mut m, &model, "after close and re-open")?;
+    let _ = guard_plain(move || {
+        drop(m);
+        drop(db);
+    });
+    Ok(())
+}
+
+pub fn sparse_job(payload: &[u8], io: &mut crate::pool::WorkerIo) -> Vec<u8> {
+    let mut r = crate::util::Rd::new(payload);
+    let which = r.u8();
+    let boundary = r.u64();
+    let eps = r.u64();
+    let seed = r.u64();
+    let depth = r.u8() as usize;
+    let lo = r.u64();
+    let hi = r.u64();
+    let scratch = Scratch::new("c08sparse");
+    let dir = scratch.fresh("d");
+    let mut out = crate::util::Buf::new();
+    let mut done = 0u64;
+    for idx in lo..hi {
+        io.progress(idx);
+        let mut seq = vec![0u8; depth];
+        let mut x = idx;
+        for p in (0..depth).rev() {
+            seq[p] = (x % 9) as u8;
+            x /= 9;
+        }
+        match sparse_one(&dir, which, boundary, eps, &seq, seed) {
+            Ok(()) => done += 1,
+            Err(e) => {
+                out.u8(1).u64(done).u64(idx).str(&e);
+                return out.0;
+            }
+        }
+    }
+    out.u8(0).u64(done);
+    out.0
+}
+
+pub fn sparse_offsets_pass(ctx: &mut Ctx, depth: u8) {
+    use crate::pool::JobResult;
+    use crate::util::{Buf, Rd, J};
+    let seed = ctx.seed;
+    ctx.pool.reinit(vec![]);
+    let total = 9u64.pow(depth as u32);
+    let mut jobs: Vec<(String, Vec<u8>)> = Vec::new();
+    for b in SPARSE_BOUNDARIES {
+        for which in [1u8, 2, 3] {
+            let label = format!("{} extended to {} - 64 bytes", match which { 1 => ".val", 2 => ".key", _ => ".val and .key" }, b);
+            let per = total.div_ceil(4);
+            let mut lo = 0;
+            while lo < total {
+                let hi = (lo + per).min(total);
+                let mut p = Buf::new();
+                p.u8(JOB_C08_SPARSE).u8(which).u64(b).u64(64).u64(seed).u8(depth).u64(lo).u64(hi);
+                jobs.push((label.clone(), p.0));
+                lo = hi;
+            }
+        }
+    }
+    let t0 = ctx.run.elapsed();
+    let payloads: Vec<Vec<u8>> = jobs.iter().map(|j| j.1.clone()).collect();
+    let results = ctx.pool.map(&payloads, |i| i);
+    let mut done = 0u64;
+    for (i, res) in results.into_iter().enumerate() {
+        let label = &jobs[i].0;
+        let report = |ctx: &mut Ctx, key: String, msg: String, idx: u64| {
+            let mut p = Buf::new();
+            let mut r = Rd::new(&jobs[i].1[1..]);
+            let (which, b, eps, sd, d) = (r.u8(), r.u64(), r.u64(), r.u64(), r.u8());
+            p.u8(JOB_C08_SPARSE).u8(which).u64(b).u64(eps).u64(sd).u8(d).u64(idx).u64(idx + 1);
+            ctx.run.violation(crate::report::Violation { prop: "C08".into(), key, message: format!("{label}: {msg}"), replay: crate::report::Replay { engine: "C08s".into(), config: p.0, case: vec![], story: vec![label.clone(), "a one-bucket map with one filler entry is created and closed, the file(s) extended with a hole (set_len), then the history runs on a fresh handle".into(), msg] } });
+        };
+        match res {
+            JobResult::Done(b) => {
+                let mut r = Rd::new(&b);
+                if r.u8() == 0 {
+                    done += r.u64();
+                } else {
+                    done += r.u64();
+                    let idx = r.u64();
+                    let msg = r.string();
+                    if msg.starts_with("machinery:") {
+                        ctx.run.notes.push(format!("{label}: {msg} (sparse files not available here; pass skipped)"));
+                        continue;
+                    }
+                    report(ctx, format!("sparse:{}", if msg.contains("panicked") { "panic" } else { "wrong-result" }), msg, idx);
+                }
+            }
+            JobResult::Crashed { progress, how } => {
+                let kind = if how.contains("hang") { "hang" } else { "abort" };
+                report(ctx, format!("sparse:{kind}"), format!("the history does not return normally: {how}"), progress.unwrap_or(0));
+            }
+        }
+    }
+    eprintln!("[C08] sparse offsets: {} histories of depth {depth} at {} boundaries x 3 file choices {:.1}s", done, SPARSE_BOUNDARIES.len(), ctx.run.elapsed() - t0);
+    ctx.run.add("sparse_offset_histories", done as i64);
+    ctx.states += done;
+    ctx.transitions += done * depth as u64;
+    ctx.runs.push(J::obj(vec![("label", J::s("offsets beyond what can be materialised: .val / .key / both extended with a hole to 256 MiB, 2 GiB and 32 GiB minus 64 bytes; every history of the depth over put (3 or 200 bytes) / delete on three colliding keys whose records fill their slots exactly, on a live handle and after a re-open, against the model")), ("depth", J::Int(depth as i64)), ("histories", J::Int(done as i64))]));
+}
+
+pub fn replay_sparse(config: &[u8]) -> i32 {
+    let mut io = crate::pool::WorkerIo::sink();
+    let b = sparse_job(&config[1..], &mut io);
+    let mut r = crate::util::Rd::new(&b);
+    if r.u8() == 0 {
+        println!("REPLAY: no violation reproduced");
+        0
+    } else {
+        let _ = r.u64();
+        let _ = r.u64();
+        println!("REPLAY VIOLATION: {}", r.string());
+        1
+    }
 }
